@@ -407,6 +407,8 @@ def expected_success(toks):
         return False
     if sum(1 for x in toks if x[0] == "c") > 1 or sum(1 for x in toks if x[0] == "m") > 1:
         return False
+    if any(x[0] == "i" and isinstance(x[3], tuple) and x[3][0] == "S" for x in toks):
+        return None     # a directory / device as input: the documentation does not say; accepting it (as an empty file) and refusing it with a diagnostic are both fine
     m = modes[0]
     ins = [x for x in toks if x[0] == "i"]
     keys = [x[1] for x in toks if x[0] == "k"]
